@@ -9,6 +9,7 @@ CONSTANTS
   MaxOps = 4
   Faults = {"stmt", "ctx", "reorg"}
   AllowGap = FALSE
+  Dups = FALSE
   AllowRestart = TRUE
   AllowReorg = TRUE
   Rollups = {1, 2}
